@@ -4,8 +4,23 @@ import itertools
 from corr import registry as R
 
 
+FINDINGS = []
+
+
 def replay(witness):
     return False
+
+
+def replay_violation(v):
+    """v['input'] is the history in the rendering of corr.registry.enc_real (string items and iterator operations included)"""
+    import proto
+    h = [R.dec_real(x) for x in v['input']]
+    d = proto.Driver()
+    try:
+        a = d.ask('reg.spec', *[R.enc_op(o) for o in h])
+    finally:
+        d.close()
+    return R.run_real(h) != a
 
 
 def search(driver, rng, n):
@@ -22,13 +37,18 @@ def search(driver, rng, n):
             for combo in itertools.product(big, repeat=L):
                 hists.append(list(combo) + [('I',), ('GI', -1), ('IX', 'a'), ('GS', None, None, -1)])
     hists += R.close_pair_histories()
+    # string items whose value equals a later name; edits and sorting reads under an open iterator (see corr.registry)
+    hists += R.string_item_histories() + R.live_iterator_histories()
     ans = driver.ask_many([('reg.spec',) + tuple(R.enc_op(o) for o in h) for h in hists])
     viol = []; seen = set()
     for h, a in zip(hists, ans):
         real = R.run_real(h)
         if R.nontrivial(h): seen.add(tuple(h))
         if real != a:
-            viol.append({'input': [R.enc_op(o) for o in h], 'observed': real, 'required': a, 'finding': None,
+            viol.append({'input': [R.enc_real(o) for o in h], 'request': [R.enc_op(o) for o in h], 'observed': real, 'required': a, 'finding': None,
                          'note': 'observations of util.Registry differ from stableSortDesc(log ops)'})
     return {'cases': len(hists), 'distinct': len(seen), 'violations': viol,
-            'samples': [{'history': [R.enc_op(o) for o in hists[0]], 'spec': ans[0]}], 'dist': {'histories': len(hists), 'wide_priority_histories': sum(1 for h in hists if R.is_wide(h))}}
+            'samples': [{'history': [R.enc_op(o) for o in hists[0]], 'spec': ans[0]}], 'dist': {'histories': len(hists), 'wide_priority_histories': sum(1 for h in hists if R.is_wide(h)),
+                     'string_item_histories': sum(1 for h in hists if any(o[0] == 'RS' for o in h)),
+                     'name_equals_unregistered_item_value': sum(1 for h in hists if R.name_hits_item_value(h)),
+                     'edit_under_open_iterator': sum(1 for h in hists if R.edits_under_iterator(h))}}
